@@ -36,7 +36,8 @@ RULE = ("one PRNG (VERIF_SEED). A case = (initial Root value, reader chains, his
         "item takes over the path segment of a removed one — while the nested collections are restructured and their items "
         "read and written by key), patch (Patch::patch of structs/options/vectors/tuples with partial changes, a "
         "#[patch] closure, PatchField for ()), keyed-ancestor (a keyed collection reordered through an ancestor's guard: open "
-        "finding F-C16-e). A case is non-trivial when at least one write wakes some but not all of the readers; distinct "
+        "finding F-C16-e), patch-keyed (Patch of a keyed collection whose items changed in place, before and after a "
+        "reorder: open finding F-C16-n). A case is non-trivial when at least one write wakes some but not all of the readers; distinct "
         "= distinct case hash.")
 TRUSTED = [
     "Coq 8.16.1 kernel (coqc); no axioms: every theorem of Properties_C16.v is 'Closed under the global context'",
@@ -75,7 +76,8 @@ ASSUMPTIONS = [
     "'readers of ancestors before readers of descendants' is demanded for every pair of notified readers whose paths "
     "are in the proper-prefix relation (the sub-case where both lie strictly below the written field is the open "
     "finding F-C16-g)",
-    "Patch::patch is not applied across a change of a keyed collection (PatchField for Vec uses index segments)",
+    "Patch::patch does not change a keyed collection or its items (PatchField for Vec names items by index segments, "
+    "keyed readers subscribe by key segments: open finding F-C16-n, exercised by the separate family patch-keyed)",
     "untracked writes (try_write_untracked, try_update_untracked, maybe_update -> false): the property speaks about "
     "notifying writes; of an untracked one the oracle demands that no UNRELATED reader is notified, that every reader that "
     "runs later sees the current value and that keyed readers keep following their key; that the related readers stay "
@@ -296,6 +298,14 @@ def diff_paths(sch, old, new, pre):
         if not old or not new:
             return [pre]
         return diff_paths(sch[1], old[0], new[0], pre + ((1, 0),))
+    if sch[0] == "keyed":
+        # items are fields by KEY: with the key sequence unchanged, the items that changed
+        if [x[0] for x in old] != [x[0] for x in new]:
+            return [pre]
+        out = []
+        for o, n in zip(old, new):
+            out += diff_paths(sch[1], o, n, pre + ((3, o[0]),))
+        return out
     if not old and not new:
         return []
     if not old or not new:
@@ -555,8 +565,8 @@ def mk(init, readers, steps, sched, orders, kind, rng=None):
                 how = rng.choice([1, 1, 9, 10])
             if what == "opt" and rng.random() < 0.6:
                 how = rng.choice([6, 7])
-            if what == "enum" and rng.random() < 0.4:
-                how = 11
+            if what == "enum" and rng.random() < 0.45:
+                how = rng.choice([11, 12, 13])
             if kind != "keyed-exact":
                 k = rng.choice([0, 0, 0, 1, 1, 2, 3, 4])
             if rng.random() < 0.3:
@@ -698,8 +708,15 @@ def contains_keyed(sch):
     return False
 
 
-def patch_value(rng, sch, v):
-    """a new value that changes only some leaves and leaves keyed collections untouched"""
+def patch_value(rng, sch, v, keyed_items=False):
+    """a new value that changes only some leaves and leaves keyed collections untouched
+    (keyed_items: their items may change in place, keys and order kept)"""
+    if keyed_items:
+        if sch[0] == "keyed":
+            return [patch_value(rng, sch[1], x, True) for x in v]
+        if sch[0] == "struct":
+            return [x if (is_item(sch) and i == 0) else patch_value(rng, s_, x, True)
+                    for i, (s_, x) in enumerate(zip(sch[1], v))]
     if sch[0] == "int":
         return v + (rng.randint(1, 5) if rng.random() < 0.5 else 0)
     if sch[0] == "box":
@@ -746,6 +763,34 @@ def gen_patch(rng, n_steps):
 
 
 LARGE_SIZES = [6, 7, 8, 13, 14, 15, 27, 28, 29, 40]     # around the growth steps of the FxHashMap of FieldKeys
+
+
+def gen_patch_keyed(rng):
+    """OUTSIDE the assumption of family patch (exercises the open finding F-C16-n): Patch::patch
+    of a keyed collection (or of an ancestor) whose items changed in place, before and after the
+    collection was restructured through its own guard"""
+    init = rich_init(rng)
+    fld = rng.choice([[F(4)], [F(1), F(3)]])
+    tree = init
+    cur = reach(tree, fld)[2]
+    readers = [list(fld)] + [fld + [K(it[0])] + rng.choice([[F(1)], [F(2), F(0)], [], [F(1)]]) for it in cur]
+    readers += pick_readers(rng, tree, 2)
+    rng.shuffle(readers)
+    steps = []
+    for _ in range(rng.randint(2, 5)):
+        r = rng.random()
+        cur = reach(tree, fld)[2]
+        if r < 0.35:
+            new = keyed_change(rng, cur, rng.choice(["reorder", "insert", "remove", "reorder"]))
+            steps.append([0, fld, new])
+            tree = set_at(tree, fld, new)
+        else:
+            w = rng.choice([fld, fld[:-1], fld])
+            j, sch, v = reach(tree, w)
+            new = patch_value(rng, sch, v, True)
+            steps.append([1, w, new])
+            tree = set_at(tree, w, new)
+    return mk(init, readers, steps, [], rnd_orders(rng, len(steps)), "patch-keyed", rng)
 
 
 def gen_keyed(rng, n_steps, exact=False, nested=False, large=False):
@@ -934,6 +979,14 @@ def gen_basic(rng):
         j, sch, v = reach(init, w)
         new = mutate_same_shape(rng, sch, v)
         yield mk(init, readers, [[0, w, new]], [], [[[], []]], "basic")
+    # writes of the store itself through both of its handles: every tracked and untracked entry point
+    new = mutate_same_shape(rng, ROOT, init)
+    for root in ([], [list(EA)]):
+        readers = [[], [F(0)], [F(1), F(0)], [list(EA)]]
+        for how in range(4):
+            yield mk(init, readers, [[0, root, new, how], [0, [F(0)], new[0] + 1, 0]], [], [[[], []]] * 2, "basic")
+        for how in range(3):
+            yield mk(init, readers, [[5, root, new, how], [0, [F(0)], new[0] + 1, 0]], [], [[[], []]] * 2, "basic")
 
 
 def gen_keyed_small(rng):
@@ -1047,6 +1100,8 @@ def generate(rng, tier):
             yield it
     for _ in range(40 if quick else 800):
         yield gen_keyed_ancestor(rng, shrink=rng.random() < 0.25)
+    for _ in range(60 if quick else 1200):
+        yield gen_patch_keyed(rng)
 
 
 # ------------------------------------------------------------------------------------------ checks
@@ -1061,7 +1116,7 @@ def valid_case(item):
         c = item["case"]
         if len(c) not in (6, 7, 8, 9) or c[0] != 0:
             return False
-        if len(c) >= 7 and not (isinstance(c[6], list) and all(x in range(12) for x in c[6])):
+        if len(c) >= 7 and not (isinstance(c[6], list) and all(x in range(14) for x in c[6])):
             return False
         if len(c) >= 8 and not (isinstance(c[7], list) and all(x in range(5) for x in c[7])):
             return False
@@ -1160,6 +1215,8 @@ def _oracle(item, impl):
     Returns None or (message, {"step": index or None, "reader": chain or None, "what": tag})"""
     if isinstance(impl, str):
         return ("panic / harness error: " + impl[:200], dict(step=None, reader=None, what="panic"))
+    if not isinstance(impl, list) or not all(isinstance(ph, list) for ph in impl):
+        return ("unreadable observation (diagnostics of /repo on the output?): %r" % (impl,), dict(step=None, reader=None, what="other"))
     c = item["case"]
     tree, readers, steps, sched = c[1], [tup(r) for r in c[2]], c[3], c[4]
     raw = c[2]
@@ -1349,6 +1406,23 @@ def stale_fields(item):
     return out
 
 
+def patches_keyed_items(item, step):
+    """is history step `step` a Patch that changes items of a keyed collection in place?"""
+    c = item["case"]
+    tree = c[1]
+    for i, st in enumerate(c[3]):
+        if st[0] not in (0, 1, 5) or not isinstance(st[1], list):
+            continue
+        j, sch, v = reach(tree, st[1])
+        if j != len(st[1]) or not well_formed(sch, st[2]):
+            continue
+        if i == step:
+            return st[0] == 1 and any(any(a == 3 for a, _ in w[len(tup(st[1])):])
+                                      for w in diff_paths(sch, v, st[2], tup(st[1])))
+        tree = set_at(tree, st[1], st[2])
+    return False
+
+
 def classify(item, impl, model):
     """F-C16-e: the failure is a consequence of stale FieldKeys — a keyed collection was
     restructured through an ancestor's write guard and the failing reader / writer goes
@@ -1362,6 +1436,10 @@ def classify(item, impl, model):
         # F-C16-g: both readers sit strictly below the written field: they are woken by the same
         # trigger (this of the written field), in subscription order
         return "F-C16-g"
+    if info["what"] in ("missed", "spurious") and info["step"] is not None and patches_keyed_items(item, info["step"]):
+        # F-C16-n: Patch names the changed items of a keyed collection by index, keyed readers
+        # subscribe by the segment of their key
+        return "F-C16-n"
     stale = stale_fields(item)
     if not stale:
         return None
@@ -1448,7 +1526,7 @@ def coverage_extra(results):
                 write_entry_points=write_hows, enum_field_readers=enum_readers, nested_keyed_readers=nested_readers)
 
 
-LEVEL_TEXT = ("Coq proofs (30 theorems, no axioms). Paths, any depth: a write through the field at path p wakes a reader of "
+LEVEL_TEXT = ("Coq proofs (33 theorems, no axioms). Paths, any depth: a write through the field at path p wakes a reader of "
               "path r iff one is a prefix of the other (field, ancestors, descendants; never siblings or cousins); its "
               "position in the notification order is |r| for ancestors and the field itself and |p|+1 for descendants "
               "(ancestors before descendants). Keyed collections, for all histories of insert/remove/reorder and all "
@@ -1466,9 +1544,10 @@ LEVEL_TEXT = ("Coq proofs (30 theorems, no axioms). Paths, any depth: a write th
               "replayed values, wake order).")
 LEVEL_NOTE = ("Trusted: Coq kernel, ExtrOcamlBasic extraction + OCaml driver, the Rust harness (fixed derive(Store) "
               "shapes, own executor); modelled not verified: reactive_graph's trigger subscriber sets and effect "
-              "re-subscription, compared on every case. Eleven defects repaired (F-C16-a..d, f, h..m); two open (F-C16-e: "
+              "re-subscription, compared on every case. Eleven defects repaired (F-C16-a..d, f, h..m); three open (F-C16-e: "
               "keys of a keyed collection go stale when it is restructured through an ancestor's write guard; F-C16-g: two "
-              "readers strictly below the written field are woken in subscription order) — stated as _refuted / "
+              "readers strictly below the written field are woken in subscription order; F-C16-n: Patch names the changed "
+              "items of a keyed collection by index, keyed readers subscribe by key segment) — stated as _refuted / "
               "_except_known. The invariant / end-to-end theorems cover executor-scheduled readers (Effect, Memo, "
               "isomorphic Effect); ImmediateEffect and RenderEffect readers are covered by the correspondence check only. "
               "Every public entry point of the anchor files is listed in coverage/C16.md with where it is driven; compared "
